@@ -292,6 +292,10 @@ def overlay(mode):
                 elif mode == 'elseflip':
                     tree = FlipIfElse().visit(tree)
                     ast.fix_missing_locations(tree)
+                elif mode == 'if2ternary':
+                    from .core import _IfElseToTernary
+                    tree = _IfElseToTernary().visit(tree)
+                    ast.fix_missing_locations(tree)
                 elif mode == 'ternary2if':
                     tree = TernaryToIf().visit(tree)
                     ast.fix_missing_locations(tree)
@@ -311,7 +315,7 @@ def overlay(mode):
 _OV_CACHE = {}
 
 
-def run_for(prop, modes=('unparse', 'rename', 'rettemp', 'split', 'swap', 'assert2raise', 'meth2func', 'dimkw', 'cmpflip', 'elseflip', 'merge'), verbose=True):
+def run_for(prop, modes=('unparse', 'rename', 'rettemp', 'split', 'swap', 'assert2raise', 'meth2func', 'dimkw', 'cmpflip', 'elseflip', 'merge', 'ternary2if', 'if2ternary'), verbose=True):
     """battery restricted to one property's rules -> list of false alarms"""
     mod = importlib.import_module('sa.rules.' + prop.lower())
     out = []
@@ -336,7 +340,7 @@ def run_for(prop, modes=('unparse', 'rename', 'rettemp', 'split', 'swap', 'asser
 
 
 def main():
-    modes = sys.argv[1:] or ['unparse', 'rename', 'rettemp', 'split', 'swap', 'assert2raise', 'meth2func', 'dimkw', 'cmpflip', 'elseflip', 'merge']
+    modes = sys.argv[1:] or ['unparse', 'rename', 'rettemp', 'split', 'swap', 'assert2raise', 'meth2func', 'dimkw', 'cmpflip', 'elseflip', 'merge', 'ternary2if', 'if2ternary']
     bad = 0
     for mode in modes:
         ov = overlay(mode)
